@@ -244,6 +244,7 @@ pub fn generate_tools(sink: &mut Sink, seed: u64, thorough: bool) {
             0 => 0,
             1 => 1,
             2 => 256,
+            3 => 12000 + rng.below(400) as usize, // more than two data packets (4334 points each) even with the short lines skipped
             _ => 1 + rng.below(if thorough { 3000 } else { 400 }) as usize,
         };
         let mut text = String::new();
